@@ -218,3 +218,8 @@ func RunReplay(t *testing.T, harnesses map[string]func()) {
 // mathematical integers with explicit wrap-around (for multiply/divide kernels).
 func U64i(name string) uint64 { return next(name).Uint64() }
 func I64i(name string) int64  { return int64(next(name).Uint64()) }
+
+// HashForkOff: from here on, hash inputs with symbolic content that can differ are taken
+// to differ (no exploration of the branch where two distinct-looking inputs coincide,
+// unless the path condition forces them equal). A stated bound of the harness.
+func HashForkOff() {}
